@@ -10,12 +10,13 @@ with a value ≥ 2^63 has nil parameters), `error` reports dropped, adjacent Pri
 Property theorems only (lemmas: Lemmas/ParserRefine*.lean).
 -/
 import VaxisModel.Lemmas.ParserRefineRun
+import VaxisModel.Lemmas.ParserCodec
 import VaxisModel.Props.C02Text
 
 namespace VaxisModel.Props.C02Refine
 open VaxisModel.Model.ParserTable VaxisModel.Model.Parser VaxisModel.Model.ParserIO VaxisModel.Model.ParserUtf8
 open VaxisModel.Lemmas.ParserRefine VaxisModel.Lemmas.ParserRefineStep VaxisModel.Lemmas.ParserRefineRun
-open VaxisModel.Lemmas.ParserRead
+open VaxisModel.Lemmas.ParserRead VaxisModel.Lemmas.ParserCodec
 
 /-- What the Spec prescribes for a rune stream under the deviations `d`: the items that must be
     delivered, then those of the control string still open at the end of input. -/
@@ -34,28 +35,55 @@ theorem step_check (st : StateId) (after fresh : Bool) (c : Nat) : stepCheck st 
 
 /-- **One step of the automaton refines one step of the reference machine** (any related states,
     any rune). -/
-theorem step_refines (K : Codec) (s : PState) (m : Spec.VT500.M) (hR : R s m) (c : Nat) :
+theorem step_refines (s : PState) (m : Spec.VT500.M) (hR : R s m) (c : Nat) :
     R (pstep s (.rune c)).st (Spec.VT500.stepRuneD devAll m c).1 ∧
     noErr (pstep s (.rune c)).out = (Spec.VT500.stepRuneD devAll m c).2.map specSeq ∧
     (pstep s (.rune c)).stop = false :=
-  sim_step K s m hR c
+  sim_step codec s m hR c
 
 /-- **Rune level, whole streams**: the automaton from its initial state over any list of runes, then
     end of input, delivers exactly the Spec's items (under `devAll`), then `EOF{}`. -/
-theorem runes_refine_spec (K : Codec) (rs : List Nat) :
+theorem runes_refine_spec (rs : List Nat) :
     noErr (runRunes handTable PState.init rs) = (specItems devAll rs).map specSeq ++ [.eof] := by
-  have := sim_run K rs PState.init {} R_init
+  have := sim_run codec rs PState.init {} R_init
   simpa [specItems, Spec.VT500.runD] using this
 
-/-- **model ⊑ Spec, whole byte streams, every read splitting** (partial: the hypothesis `Codec` —
-    agreement of the two parameter decoders on collected parameter bytes — is explicit; see
-    `codec_holds`). -/
-theorem model_refines_spec_partial (K : Codec) (cl : Nat → Nat) (chunks : List (List UInt8))
+/-- **Parameter decoders agree — including Go `int` overflow.**  For any parameter bytes that can be
+    collected (30–3B), `csiDispatch`'s loop delivers the Spec's parameters and sub-parameters
+    (`;` / `:` split, empty field = 0) with every number reduced mod 2^64 into the signed range
+    (`goInt`: exact below 2^63; a 30-digit parameter wraps, as the real code does). -/
+theorem codec_csi_holds (ps : List Nat) (hps : ∀ b ∈ ps, 0x30 ≤ b ∧ b ≤ 0x3B) :
+    decodeParams ps = (Spec.VT500.parseParams ps).map (·.map goInt) :=
+  codec_csi ps hps
+
+/-- … and `hook` (`strings.Split` + `strconv.Atoi`) delivers the Spec's DCS parameters, or reports an
+    error and delivers none exactly when one of them does not fit a Go `int` (≥ 2^63). -/
+theorem codec_dcs_holds (ps : List Nat) (hne : ps ≠ []) (hps : ∀ b ∈ ps, 0x30 ≤ b ∧ b ≤ 0x3B ∧ b ≠ 0x3A) :
+    hookParams (splitOn 0x3B ps []) =
+      (if (Spec.VT500.parseDcsParams ps).all (fun p => decide (p < 9223372036854775808))
+       then some ((Spec.VT500.parseDcsParams ps).map Int.ofNat) else none) :=
+  codec_dcs ps hne hps
+
+/-- **model ⊑ Spec, whole byte streams, every read splitting**, modulo exactly the recorded
+    deviations: the reference machine runs with F102/F102c switched on (`devAll`) and the oracle
+    respects the stream (F102d).  `_partial` because of these two exclusions only. -/
+theorem model_refines_spec_partial (cl : Nat → Nat) (chunks : List (List UInt8))
     (hR : Respects cl 0 (units (streamOf chunks))) :
     noErr (flat (runChunks handTable cl (natChunks chunks))) =
       (specItems devAll (decodeRunes (streamOf chunks))).map specSeq ++ [.eof] := by
   rw [runChunks_flat cl (natChunks chunks) hR]
-  exact runes_refine_spec K _
+  exact runes_refine_spec _
+
+/-- **… and against the Spec proper** (`Dev.none`) for every stream that never gets into one of the
+    two situations in which F102 / F102c can show (`Avoids`: no ESC into a control string that has
+    no payload yet; no C0 control between the ESC and the `\` of a string terminator). -/
+theorem model_refines_spec_clean (cl : Nat → Nat) (chunks : List (List UInt8))
+    (hR : Respects cl 0 (units (streamOf chunks)))
+    (hA : Avoids {} (decodeRunes (streamOf chunks)) = true) :
+    noErr (flat (runChunks handTable cl (natChunks chunks))) =
+      (specItems Spec.VT500.Dev.none (decodeRunes (streamOf chunks))).map specSeq ++ [.eof] := by
+  rw [model_refines_spec_partial cl chunks hR]
+  simp only [specItems, Spec.VT500.runD, runFromD_eq devAll {} _ hA, runFromD_eq Spec.VT500.Dev.none {} _ hA]
 
 /-- The full statement: the Spec proper (`Dev.none`), any oracle.  False of the code (F102, F102c,
     F102d: `Witness/F102.lean`). -/
@@ -63,6 +91,11 @@ def model_refines_spec_full : Prop :=
   ∀ (cl : Nat → Nat) (chunks : List (List UInt8)),
     noErr (flat (runChunks handTable cl (natChunks chunks))) =
       (specItems Spec.VT500.Dev.none (decodeRunes (streamOf chunks))).map specSeq ++ [.eof]
+
+-- non-vacuity of `Avoids`: a stream with CSI, a BEL-terminated and an ST-terminated OSC, text
+example : Avoids {} [0x1B, 0x5B, 0x31, 0x6D, 0x1B, 0x5D, 0x78, 0x07, 0x1B, 0x5D, 0x79, 0x1B, 0x5C, 0x41] = true := by decide
+-- … and the two recorded inputs are exactly outside it
+example : Avoids {} [0x1B, 0x5D, 0x1B, 0x5C] = false ∧ Avoids {} [0x1B, 0x5D, 0x30, 0x1B, 0x0A, 0x5C] = false := by decide
 
 -- non-vacuity: the relation holds initially; a stream through CSI with sub-parameters, OSC, text
 example : R PState.init {} := R_init
